@@ -668,12 +668,12 @@ func callerRecordsEmpty(cs ssa.Instruction, argIdx int) bool {
 // returnGuardKey gives a return a key that survives line shifts: the callee (or constant message) that produces
 // the returned error, else its ordinal.
 func returnGuardKey(ret *ssa.Return) string {
-	for _, res := range ret.Results {
+	for _, res := range retResults(ret) {
 		if s := errorOriginKey(res, 3); s != "" {
 			return s
 		}
 	}
-	for _, res := range ret.Results {
+	for _, res := range retResults(ret) {
 		if isNilConst(res) {
 			return "nil"
 		}
